@@ -101,7 +101,10 @@ type HarnessResult struct {
 	Recovered    map[string]int `json:"recovered_panics,omitempty"`
 }
 
+var forkLog = os.Getenv("SYMGO_FORKLOG") != ""
+
 type Explorer struct {
+	forkSites map[string]int
 	m       *Machine
 	fn      *ssa.Function
 	work    [][]Decision
@@ -113,7 +116,7 @@ type Explorer struct {
 }
 
 func (m *Machine) NewExplorer(fn *ssa.Function) *Explorer {
-	x := &Explorer{m: m, fn: fn, viol: map[string]*Violation{}, assume: map[string]bool{}, bounds: map[string]string{}}
+	x := &Explorer{m: m, fn: fn, viol: map[string]*Violation{}, assume: map[string]bool{}, bounds: map[string]string{}, forkSites: map[string]int{}}
 	x.R = &HarnessResult{Harness: fn.Name(), Reached: map[string]int{}, PanicKinds: map[string]int{}, Recovered: map[string]int{}}
 	return x
 }
@@ -145,6 +148,23 @@ func (x *Explorer) Run() *HarnessResult {
 		prefix := x.work[len(x.work)-1]
 		x.work = x.work[:len(x.work)-1]
 		x.runPath(prefix, nil)
+	}
+	if forkLog {
+		type kv struct {
+			k string
+			v int
+		}
+		var l []kv
+		for k, v := range x.forkSites {
+			l = append(l, kv{k, v})
+		}
+		sort.Slice(l, func(i, j int) bool { return l[i].v > l[j].v })
+		for i, e := range l {
+			if i >= 12 {
+				break
+			}
+			fmt.Fprintf(os.Stderr, "[forks] %6d  %s\n", e.v, e.k)
+		}
 	}
 	x.R.Queries = m.S.Queries - q0
 	x.R.SolverTime = (m.S.Time - t0).Seconds()
@@ -424,6 +444,16 @@ func (m *Machine) Branch(c *Term) bool {
 		return true
 	}
 	// both sides possible: follow true, queue false
+	if forkLog {
+		where := "?"
+		if m.curFrame != nil {
+			where = m.curFrame.fn.String()
+			if m.curFrame.caller != nil {
+				where += " <- " + m.curFrame.caller.fn.String()
+			}
+		}
+		m.X.forkSites[where]++
+	}
 	alt := append(append([]Decision(nil), p.decisions...), Decision{Taken: false})
 	m.X.work = append(m.X.work, alt)
 	p.decisions = append(p.decisions, Decision{Taken: true})
